@@ -400,6 +400,77 @@ func PNGWithTextChunks(png []byte, where int) []byte {
 	return out
 }
 
+// GIFNoPaletteItem is a single-frame GIF from GIFItem with every colour table
+// removed (no Global Color Table, no Local Color Table): legal, decoders fall
+// back to a default palette. With transparent it also declares a transparent
+// colour index. The item carries no expected pixels (Pix is nil).
+func GIFNoPaletteItem(r *rand.Rand, transparent bool) *Item {
+	for try := 0; try < 20; try++ {
+		it := GIFItem(r)
+		if it == nil || it.Pix.Frames != 1 {
+			continue
+		}
+		b := it.Enc
+		if len(b) < 13 {
+			continue
+		}
+		out := append([]byte{}, b[:13]...)
+		p := 13
+		if b[10]&0x80 != 0 {
+			p += 3 << (uint(b[10]&7) + 1)
+			out[10] &^= 0x87 // no global colour table
+		}
+		if transparent {
+			out = append(out, 0x21, 0xF9, 0x04, 0x01, 0x00, 0x00, byte(r.Intn(4)), 0x00)
+		}
+		ok := false
+		for p < len(b) {
+			switch b[p] {
+			case 0x2C: // image descriptor
+				if p+10 > len(b) {
+					p = len(b)
+					break
+				}
+				d := append([]byte{}, b[p:p+10]...)
+				q := p + 10
+				if d[9]&0x80 != 0 {
+					q += 3 << (uint(d[9]&7) + 1)
+					d[9] &^= 0x87 // no local colour table either
+				}
+				out = append(out, d...)
+				out = append(out, b[q:]...) // LZW minimum code size, data sub-blocks, trailer
+				ok = q < len(b)
+				p = len(b)
+			case 0x21: // extension: copy (the encoder's own graphic control extension is dropped when we add ours)
+				q := p + 2
+				for q < len(b) && b[q] != 0 {
+					q += int(b[q]) + 1
+				}
+				q++
+				if q > len(b) {
+					p = len(b)
+					break
+				}
+				if !(transparent && p+1 < len(b) && b[p+1] == 0xF9) {
+					out = append(out, b[p:q]...)
+				}
+				p = q
+			default:
+				p = len(b)
+			}
+		}
+		if !ok {
+			continue
+		}
+		setting := "no-colour-table"
+		if transparent {
+			setting += "+transparent-index"
+		}
+		return &Item{Kind: "gif", Enc: out, Setting: setting, PClass: "frames1", Valid: true}
+	}
+	return nil
+}
+
 // HashItems: the payload itself is the input of each hasher.
 func HashItems(p Payload) []*Item {
 	var out []*Item
